@@ -100,6 +100,36 @@ class Scheduler:
         self.strctr = 0
         self.always = {}
         self.last_unlinked = []
+        # what the document's expressions read: (object id or None when reached through a pointer, property).  Changes are
+        # biased towards these - a change of something nothing reads exercises nothing
+        self.hot = []
+        bodies = []
+
+        def walk(x, objs, props):
+            if isinstance(x, dict):
+                for v in x.values():
+                    walk(v, objs, props)
+            elif isinstance(x, list):
+                if len(x) == 3 and x[0] == "prop" and isinstance(x[2], str):
+                    props.add(x[2])
+                if len(x) == 2 and x[0] == "obj" and isinstance(x[1], str):
+                    objs.add(x[1])
+                for v in x:
+                    walk(v, objs, props)
+        for o in [doc["root"]] + doc["objects"]:
+            for body in o["bindings"] + o["handlers"]:
+                objs, props = set(), set()
+                walk(body, objs, props)
+                # every named object of one body with every property read in it (a local may carry any of them to any
+                # read), and every such property on whatever object a pointer leads to
+                pairs = [(i, p) for i in sorted(objs) for p in sorted(props)] + [(None, p) for p in sorted(props)]
+                self.hot += pairs
+                if pairs:
+                    bodies.append(pairs)
+        self.hot = sorted(set(self.hot), key=lambda t: (t[0] or "", t[1]))
+        # each history dwells on one expression: half of the biased changes go to what that one reads
+        self.focus = self.r.choice(bodies) if bodies else []
+        self.bodies = bodies
 
     # ---------------------------------------------------------------- helpers
     def pinned(self, obj, prop):
@@ -207,11 +237,39 @@ class Scheduler:
         return sorted(n for n, c in self.w.cls.items() if sources_of(c))
 
     def ev_set(self):
+        if self.hot and self.r.chance(0.6):
+            ho, hp = self.r.choice(self.focus if (self.focus and self.r.chance(0.5)) else self.hot)
+            owners = [n for n in self.objects_with_sources() if any(p == hp and t not in ("pw", "pm") for p, t in sources_of(self.w.cls[n]))]
+            if owners:
+                o = ho if (ho in owners and self.r.chance(0.7)) else self.r.choice(owners)
+                ty = [t for p, t in sources_of(self.w.cls[o]) if p == hp][0]
+                l, ops = self.set_ops(o, hp, ty, self.value(ty, self.w.props[o][hp]))
+                return "SET", l, ops
         o = self.r.choice(self.objects_with_sources())
         cands = [(p, t) for p, t in sources_of(self.w.cls[o]) if t not in ("pw", "pm")]
         p, ty = self.r.choice(cands)
         l, ops = self.set_ops(o, p, ty, self.value(ty, self.w.props[o][p]))
         return "SET", l, ops
+
+    def ev_sweep(self):
+        """two passes over everything one expression reads, on the objects it names: each is changed once per pass, in
+        random order, with an observation after every single change (conditions flip somewhere in between, so most reads
+        are changed under both outcomes)"""
+        if not self.bodies:
+            return None
+        pairs = list(self.r.choice(self.bodies))
+        groups = []
+        for _ in range(2):
+            self.r.shuffle(pairs)
+            for ho, hp in pairs[:8]:
+                owners = [n for n in self.objects_with_sources() if any(p == hp and t not in ("pw", "pm") for p, t in sources_of(self.w.cls[n]))]
+                if not owners:
+                    continue
+                o = ho if ho in owners else self.r.choice(owners)
+                ty = [t for p, t in sources_of(self.w.cls[o]) if p == hp][0]
+                l, ops = self.set_ops(o, hp, ty, self.value(ty, self.w.props[o][hp]))
+                groups.append({"kind": "SET", "lines": l, "ops": ops, "sweep": True})
+        return groups
 
     def ev_set_same(self):
         o = self.r.choice(self.objects_with_sources())
@@ -439,9 +497,9 @@ class Scheduler:
 
     def history(self, n_events):
         """-> list of groups {"kind", "lines", "ops"}; one observation follows each group"""
-        weights = {"mixed": [(20, "set"), (6, "same"), (8, "notify"), (14, "repoint"), (6, "null"), (7, "destroy"), (5, "new"), (14, "emit"), (5, "other"), (3, "always"), (8, "burst"), (2, "aba")],
-                   "bindings": [(24, "set"), (6, "same"), (8, "notify"), (18, "repoint"), (8, "null"), (9, "destroy"), (6, "new"), (6, "emit"), (2, "other"), (3, "always"), (10, "burst"), (4, "aba")],
-                   "handlers": [(12, "set"), (3, "same"), (4, "notify"), (8, "repoint"), (3, "null"), (3, "destroy"), (2, "new"), (40, "emit"), (14, "other"), (3, "always"), (6, "burst")]}[self.profile]
+        weights = {"mixed": [(20, "set"), (6, "same"), (8, "notify"), (14, "repoint"), (6, "null"), (7, "destroy"), (5, "new"), (14, "emit"), (5, "other"), (3, "always"), (8, "burst"), (2, "aba"), (5, "sweep")],
+                   "bindings": [(24, "set"), (6, "same"), (8, "notify"), (18, "repoint"), (8, "null"), (9, "destroy"), (6, "new"), (6, "emit"), (2, "other"), (3, "always"), (10, "burst"), (4, "aba"), (8, "sweep")],
+                   "handlers": [(12, "set"), (3, "same"), (4, "notify"), (8, "repoint"), (3, "null"), (3, "destroy"), (2, "new"), (40, "emit"), (14, "other"), (3, "always"), (6, "burst"), (3, "sweep")]}[self.profile]
         groups = []
         fns = {"set": self.ev_set, "same": self.ev_set_same, "notify": self.ev_notify, "repoint": self.ev_repoint, "null": self.ev_null,
                "destroy": self.ev_destroy, "new": self.ev_new, "emit": self.ev_emit, "other": self.ev_emit_other, "always": self.ev_always}
@@ -454,6 +512,11 @@ class Scheduler:
                 if gs:
                     groups += gs
                     groups[-1]["aba"] = True
+                continue
+            if k == "sweep":
+                gs = self.ev_sweep()
+                if gs:
+                    groups += gs
                 continue
             if k == "burst":
                 lines, ops, kinds = [], [], []
